@@ -8,6 +8,8 @@ package main
 // invariant re-asserted on every back edge. Calls to functions under contract use only the callee's contract.
 
 import (
+	"os"
+	"runtime/debug"
 	"fmt"
 	"go/constant"
 	"go/token"
@@ -85,6 +87,9 @@ type UnsupportedError struct{ msg string }
 func (e *UnsupportedError) Error() string { return e.msg }
 
 func unsupported(format string, a ...any) {
+	if os.Getenv("GOVC_TRACE") != "" {
+		debug.PrintStack()
+	}
 	panic(&UnsupportedError{fmt.Sprintf(format, a...)})
 }
 
@@ -140,7 +145,9 @@ type Frame struct {
 	names       map[string]ssa.Value // debug names (last def)
 	sigOverride *types.Signature
 	debugRefs   map[string][]ssa.Value
+	debugRefs2  map[string][]*ssa.DebugRef
 	callStates  map[string][]*State
+	evalAt      *ssa.BasicBlock
 	preCallStates map[string][]*State
 	lastRet     *ssa.Return
 	addrNames   map[string]ssa.Value // names of address-taken variables -> their address
@@ -205,8 +212,11 @@ func (fx *FnCtx) oblige(kind, name, text string, st *State, goal Term, pos token
 	}
 	ob.SMT = fx.s.render(fx.s.mark(), st.guard, goal, fmt.Sprintf("obligation %s\nkind %s\n%s\n%s", full, kind, text, ob.Pos), true)
 	fx.obs = append(fx.obs, ob)
-	// assert-then-assume
-	fx.s.assume(st.guard, goal)
+	// assert-then-assume, for quantifier-free goals only: a quantified goal asserted in a state whose heaps are
+	// ite/append terms is a source of matching loops for every later obligation
+	if !strings.Contains(goal, "(forall ") && !strings.Contains(goal, "(exists ") {
+		fx.s.assume(st.guard, goal)
+	}
 }
 
 // splitSexp splits a sequence of s-expressions at top level
@@ -1126,7 +1136,9 @@ func (fr *Frame) backEdge(from *ssa.BasicBlock, li *loopInfo, st *State) {
 	}
 	if fr.fc != nil {
 		for _, c := range fr.fc.Steps[li.ordinal] {
+			fr.evalAt = from
 			t := fr.evalClause(c, st, li)
+			fr.evalAt = nil
 			fx.oblige("inv-pres", fmt.Sprintf("%s/step/loop%d/%s", name, li.ordinal, c.Label), c.Text, st, t, b.Instrs[0].Pos(), fr.props())
 		}
 	}
